@@ -117,6 +117,13 @@ func genPlanC17(rt *rapid.T, real bool) *Plan {
 			}
 		}
 	}
+	if !c.TCP && rapid.IntRange(0, 2).Draw(rt, "ack-write-fails") == 0 {
+		// the socket refuses some of the client's acknowledgements (a connected UDP socket reports an ICMP error on the
+		// next write): the telegram has been accepted all the same and keeps its place in the order
+		for i := 0; i < rapid.IntRange(1, 3).Draw(rt, "n-ack-fail"); i++ {
+			p.FailOut = append(p.FailOut, rapid.IntRange(0, tag).Draw(rt, "ack-fail-at"))
+		}
+	}
 	switch rapid.IntRange(0, 2).Draw(rt, "consumer") {
 	case 0:
 		p.Consumer = []ConStep{{AfterUs: 50, Kind: "drain"}}
